@@ -528,3 +528,24 @@ impl Oracle for C10 {
         let _ = pos(0);
     }
 }
+
+/// Re-execute a recorded op list exactly.
+pub fn replay(c: &mut Collector, r: &refmodel::json::J) -> Option<i32> {
+    let ops: Vec<Op> = r.get("ops")?.as_arr()?.iter().filter_map(|x| x.as_str().and_then(Op::parse)).collect();
+    let fen = r.get("node_fen")?.as_str()?;
+    let p = Position::from_fen(fen).ok()?;
+    let board = crate::real::parse(fen).ok()?;
+    let im = r.get("initial_mask").and_then(|x| x.as_str()).and_then(|t| u64::from_str_radix(t.trim_start_matches("0x"), 16).ok());
+    let legal = p.legal_moves();
+    let mut nop = |_: &str| {};
+    match execute(&board, &p, &legal, im, &ops, &mut nop) {
+        Some(f) => {
+            c.violation(f.kind, f.move_class, format!("{fen}: ops {:?} -> {}", ops.iter().map(|o| o.text()).collect::<Vec<_>>(), f.detail), r.clone());
+        }
+        None => println!("{fen}: {} recorded ops executed, iterator agrees with the model", ops.len()),
+    }
+    for v in &c.violations {
+        println!("VIOLATION property=C10\n  {}/{}: {}", v.kind, v.signature, v.detail);
+    }
+    Some(if c.violation_total > 0 { 1 } else { 0 })
+}
